@@ -321,6 +321,30 @@ func runCursorCase(ci interface{}, rec *pbt.Rec) *pbt.Failure {
 			}
 		}
 	}
+	// a crash while the status file is being rewritten leaves a truncated or empty file: the connector must fall
+	// back to a consistent cursor (its configured start), never to a cursor that numbers events differently
+	full, _ := json.Marshal(map[string]uint64{"last_checked_minter_block": n, "last_event_nonce": 99, "last_batch_nonce": 9, "last_valset_nonce": 9})
+	for _, cut := range []int{0, 1, len(full) / 2, len(full) - 1} {
+		ioutil.WriteFile(file, full[:cut], 0o644)
+		nd.mu.Lock()
+		nd.latest = n
+		nd.mu.Unlock()
+		ctx := mctx.Context{MinterMultisigAddr: multisig, MinterClient: client, Logger: log.NewNopLogger()}
+		ctx.LoadStatus(file, cfg)
+		ctx = minter.GetLatestMinterBlockAndNonce(ctx, 0)
+		restarts++
+		got, err := readStatus(file)
+		if err != nil {
+			got = cursor{ctx.LastCheckedMinterBlock(), ctx.LastEventNonce(), ctx.LastBatchNonce(), ctx.LastValsetNonce()}
+		}
+		if got.Block > n || got.Block < c.StartBlock {
+			return pbt.Failf("cursor-after-torn-status-file", "status file truncated to %d bytes: persisted last-checked block %d, configured start %d, node height %d", cut, got.Block, c.StartBlock, n)
+		}
+		if want := refCursor(c, got.Block); got != want {
+			return pbt.Failf("cursor-after-torn-status-file", "history %s; status file truncated to %d of %d bytes (crash while it was being rewritten): after the restart the cursor is {block %d, next event %d, next batch %d, valset %d}, the consistent one is {next event %d, next batch %d, valset %d}",
+				describe(c), cut, len(full), got.Block, got.Event, got.Batch, got.Valset, want.Event, want.Batch, want.Valset)
+		}
+	}
 	rec.NonTrivial = insideBusy > 0
 	rec.Shape = describe(c) + fmt.Sprint(c.StartBlock)
 	defer func() { rec.Label("restarts=" + fmt.Sprint(restarts/100*100) + "+") }()
@@ -356,7 +380,7 @@ func TestC20(t *testing.T) {
 		Gen:         genCursorCase,
 		New:         func() interface{} { return &CursorCase{} },
 		Run:         runCursorCase,
-		Assumptions: []string{"the state persisted at a crash is exactly the last Commit (the status file is rewritten per block)", "the main loop (package main, needs flag parsing and a live Tendermint RPC) is represented by its cursor invariant: a stored cursor is consistent at some block", "hub acknowledgements range over every nonce from 0 to the number of events"},
+		Assumptions: []string{"the state persisted at a crash is the last Commit, or a torn status file (empty / truncated) when the crash hits the rewrite", "the main loop (package main, needs flag parsing and a live Tendermint RPC) is represented by its cursor invariant: a stored cursor is consistent at some block", "hub acknowledgements range over every nonce from 0 to the number of events"},
 	}).Main(t)
 }
 
